@@ -14,3 +14,6 @@ def run(ctx):
         'other element types (strings, user types) are outside the decided instantiations; the code is generic over PartialOrd and uses only <=, >=',
     ]
     core.run_kani_set(ctx, ['c07_'], bound='all i8 / all non-NaN f64, no unwind bound', harness_timeout=300)
+    if ctx.tier == 'thorough':
+        # thorough tier: the same harnesses decided a second time by an independent SAT solver (kissat instead of CaDiCaL)
+        core.run_kani_set(ctx, ['c07_'], bound='all i8 / all non-NaN f64, no unwind bound', harness_timeout=900, solver='kissat')
